@@ -74,10 +74,11 @@ Definition incr (nx ix : list Z) : list Z :=
   | _, (r, _) => r
   end.
 
-(* colvar_grid::wrap on index vectors (periodic dimensions only; others unchanged) *)
+(* colvar_grid::wrap / wrap_detect_edge on index vectors: ix[i] = ((ix[i] % nx[i]) + nx[i]) % nx[i] in
+   periodic dimensions, others unchanged.  C++ % truncates towards zero: Z.rem, not Z.modulo. *)
 Fixpoint wrap_index (periodic : list bool) (nx ix : list Z) : list Z :=
   match periodic, nx, ix with
-  | p :: ps, n :: ns, i :: is_ => (if p then (i + n) mod n else i) :: wrap_index ps ns is_
+  | p :: ps, n :: ns, i :: is_ => (if p then Z.rem (Z.rem i n + n) n else i) :: wrap_index ps ns is_
   | _, _, _ => []
   end.
 
@@ -89,6 +90,7 @@ Section Init.
 End Init.
 
 (* ---- histogram accumulation (colvarbias_histogram::update) ---- *)
+
 
 Fixpoint upd {A} (l : list A) (k : nat) (f : A -> A) : list A :=
   match l, k with
@@ -136,3 +138,24 @@ Section Hist.
   Definition hist_run (vector_mode : bool) (c : hist_cfg) (h : list hist_in) : list T :=
     fold_left (hist_step vector_mode c) h (hist_init c).
 End Hist.
+
+(* ---- re-mapping branch of colvar_grid::read_multicol (mult = 1): every record (x_1..x_nd, value)
+   of the file is binned on the receiving grid, periodic dimensions are wrapped, and records whose
+   index is out of range are ignored; the value overwrites the receiving element (add = false). ---- *)
+Section Remap.
+  Context {T : Type} (O : NumOps T).
+  Record grid_geom := mkGeom { g_lower : list T; g_width : list T; g_nx : list Z; g_per : list bool }.
+
+  Definition remap_target (g : grid_geom) (x : list T) : option Z :=
+    let ix := wrap_index (g_per g) (g_nx g) (bins O (g_lower g) (g_width g) x) in
+    if index_ok (g_nx g) ix then Some (address 1 (g_nx g) ix) else None.
+
+  Definition remap_record (g : grid_geom) (data : list T) (rc : list T * T) : list T :=
+    match remap_target g (fst rc) with
+    | Some a => upd data (Z.to_nat a) (fun _ => snd rc)
+    | None => data
+    end.
+
+  Definition remap (g : grid_geom) (recs : list (list T * T)) : list T :=
+    fold_left (remap_record g) recs (repeat (n0 O) (Z.to_nat (ntot 1 (g_nx g)))).
+End Remap.
